@@ -202,6 +202,7 @@ def run(rep, tier, seed, pa):
     nref = 40 if tier == "quick" else 400
     lines, metas = [], []
     label_ids = {}
+    shared = {}
 
     def labels_id(l):
         if l not in label_ids:
@@ -219,7 +220,8 @@ def run(rep, tier, seed, pa):
         if not any(len(cont[a]) for a in gts):
             continue
         for pivot_type in ("float_pivot", "int_pivot"):
-            sampler = pa.ShuffleContinuumSampler(pivot_type=pivot_type)
+            # one sampler object per pivot type, re-initialised on every reference: nothing of an earlier reference may leak
+            sampler = shared.setdefault(pivot_type, pa.ShuffleContinuumSampler(pivot_type=pivot_type))
             sampler.init_sampling(cont, gts)
             for rep_i in range(3 if tier == "quick" else 5):
                 np.random.seed(rng.randrange(2 ** 31))
